@@ -92,6 +92,8 @@ def selectStep : List String → Option String
   | ["modes", _, _] => some "ok"
   | "tj" :: _ => some "ok"     -- C11 master differential: evaluated on the real code alone
   | ["sniffbig", _] => some "ok"
+  -- C18 cast oracle: evaluated on the real code alone (exactness of the i64 / u64 / f64 views)
+  | ["numcast", _] => some "ok"
   | _ => none
 
 end Jsonb.Driver
